@@ -15,6 +15,9 @@ import (
 type c12Rec struct {
 	Rec []byte `json:"rec,omitempty"`
 	Nil bool   `json:"nil,omitempty"`
+	// a large record is given by length and seed and materialised when the case runs
+	GenN    int   `json:"gen_n,omitempty"`
+	GenSeed int64 `json:"gen_seed,omitempty"`
 }
 
 type cutObs struct {
@@ -23,6 +26,8 @@ type cutObs struct {
 	Seq   []recOut `json:"seq"`
 	At    []recOut `json:"at"` // ReadNextAt at every original record offset
 	MOpen string   `json:"mopen,omitempty"`
+	// two read/skip programs over the cut file (skip the even positions and read the odd ones; the other way round)
+	Mix [][]recOut `json:"mix,omitempty"`
 }
 
 type altObs struct {
@@ -50,6 +55,8 @@ type c12Case struct {
 	Recs []c12Rec    `json:"recs"`
 	Vals []int       `json:"vals,omitempty"` // replacement values for hdr mode (empty = all 255 others)
 	FH   [][2]uint32 `json:"fh,omitempty"`
+	Big  bool        `json:"big,omitempty"` // cut mode with records of hundreds of kilobytes: sampled cut lengths, payloads observed as digests
+	gen  map[int][]byte
 	// observations
 	File  []byte   `json:"file"`
 	Offs  []uint64 `json:"offs"`
@@ -63,6 +70,18 @@ type c12Case struct {
 func (c *c12Case) rec(i int) []byte {
 	if c.Recs[i].Nil {
 		return nil
+	}
+	if n := c.Recs[i].GenN; n > 0 {
+		if c.gen == nil {
+			c.gen = map[int][]byte{}
+		}
+		if b, ok := c.gen[i]; ok {
+			return b
+		}
+		b := make([]byte, n)
+		rand.New(rand.NewSource(c.Recs[i].GenSeed)).Read(b)
+		c.gen[i] = b
+		return b
 	}
 	if c.Recs[i].Rec == nil {
 		return []byte{}
@@ -144,10 +163,44 @@ func (c *c12Case) Exec() {
 	tmp := filepath.Join(dir, "t.rio")
 	switch c.Mode {
 	case "cut":
-		for n := 0; n <= len(c.File); n++ {
+		var lens []int
+		if !c.Big {
+			for n := 0; n <= len(c.File); n++ {
+				lens = append(lens, n)
+			}
+		} else {
+			// around every record boundary, and a stride through the payloads
+			seenLen := map[int]bool{}
+			add := func(n int) {
+				if n >= 0 && n <= len(c.File) && !seenLen[n] {
+					seenLen[n] = true
+					lens = append(lens, n)
+				}
+			}
+			for i, off := range c.Offs {
+				for d := -3; d <= 3; d++ {
+					add(int(off) + d)
+					add(int(off) + c.HLens[i] + d)
+				}
+			}
+			for n := 0; n <= len(c.File); n += 1 + len(c.File)/37 {
+				add(n)
+			}
+			add(len(c.File))
+		}
+		for _, n := range lens {
 			must(os.WriteFile(tmp, c.File[:n], 0644))
 			ob := cutObs{N: n}
 			ob.Open, ob.Seq = readSeqFile(tmp, c.RBuf, len(c.Recs)+2)
+			if n >= 8 && len(c.Recs) >= 2 {
+				for par := 0; par < 2; par++ {
+					var prog []bool
+					for i := 0; i < len(c.Recs)+1; i++ {
+						prog = append(prog, i%2 != par)
+					}
+					ob.Mix = append(ob.Mix, readMixed(tmp, c.RBuf, prog))
+				}
+			}
 			m, err := openMmap(tmp, 0)
 			if err != nil {
 				ob.MOpen = "Rejected"
@@ -158,7 +211,17 @@ func (c *c12Case) Exec() {
 				}
 				m.Close()
 			}
+			if c.Big {
+				for _, l := range append([][]recOut{ob.Seq, ob.At}, ob.Mix...) {
+					for x := range l {
+						l[x].Data = squash(l[x].Data)
+					}
+				}
+			}
 			c.Cuts = append(c.Cuts, ob)
+		}
+		if c.Big {
+			c.File = nil
 		}
 	case "hdr":
 		for ri := range c.Recs {
@@ -242,6 +305,14 @@ func (c *c12Case) Exec() {
 	}
 }
 
+// eq: the returned payload is record i (large payloads are observed as digests)
+func (c *c12Case) eq(data []byte, i int) bool {
+	if c.Big {
+		return bytes.Equal(data, squash(c.rec(i)))
+	}
+	return bytes.Equal(data, c.rec(i))
+}
+
 // genuinePrefix: the Ok items are exactly the first k written records, unaltered
 func (c *c12Case) genuinePrefix(seq []recOut) (int, string) {
 	k := 0
@@ -252,7 +323,7 @@ func (c *c12Case) genuinePrefix(seq []recOut) (int, string) {
 		if k >= len(c.Recs) {
 			return k, "more records returned than were written"
 		}
-		if r.Nil != c.Recs[k].Nil || !bytes.Equal(r.Data, c.rec(k)) {
+		if r.Nil != c.Recs[k].Nil || !c.eq(r.Data, k) {
 			return k, fmt.Sprintf("record %d returned altered (nil=%v data=%x)", k, r.Nil, r.Data)
 		}
 		k++
@@ -294,10 +365,33 @@ func (c *c12Case) Oracle() (bool, string) {
 			if len(ob.Seq) != k+1 || ob.Seq[k].Err == "" {
 				return false, fmt.Sprintf("cut %d: reader did not end with EOF or an error", ob.N)
 			}
+			for par, mix := range ob.Mix {
+				for i, r := range mix {
+					if !r.Skip && r.Err != "" && i < len(c.Recs) {
+						// skipping is reading and discarding: a completely contained record is returned also after skips
+						if endI := int(c.Offs[i]) + c.HLens[i] + c.storedLen(i); endI <= ob.N {
+							return false, fmt.Sprintf("cut %d: read/skip program %d: reading the completely contained record %d failed after skips (%s)", ob.N, par, i, r.Err)
+						}
+					}
+					if r.Skip || r.Err != "" {
+						continue
+					}
+					// a record returned at step i of a read/skip program is record i, whole
+					if i >= len(c.Recs) {
+						return false, fmt.Sprintf("cut %d: read/skip program %d returned a record at step %d, behind the last written one", ob.N, par, i)
+					}
+					if endI := int(c.Offs[i]) + c.HLens[i] + c.storedLen(i); endI > ob.N {
+						return false, fmt.Sprintf("cut %d: read/skip program %d returned data for record %d, which is not completely contained", ob.N, par, i)
+					}
+					if r.Nil != c.Recs[i].Nil || !c.eq(r.Data, i) {
+						return false, fmt.Sprintf("cut %d: read/skip program %d: step %d did not return record %d (after skips)", ob.N, par, i, i)
+					}
+				}
+			}
 			for i, r := range ob.At {
 				endI := int(c.Offs[i]) + c.HLens[i] + c.storedLen(i)
 				if endI <= ob.N {
-					if r.Err != "" || r.Nil != c.Recs[i].Nil || !bytes.Equal(r.Data, c.rec(i)) {
+					if r.Err != "" || r.Nil != c.Recs[i].Nil || !c.eq(r.Data, i) {
 						return false, fmt.Sprintf("cut %d: ReadNextAt of contained record %d wrong (%s)", ob.N, i, r.Err)
 					}
 				} else if r.Err == "" {
@@ -356,6 +450,13 @@ func sxRecs(l []recOut) string {
 }
 
 func (c *c12Case) Sx() string {
+	if c.Big {
+		return ""
+	}
+	return c.sx()
+}
+
+func (c *c12Case) sx() string {
 	if c.Fatal != "" {
 		return ""
 	}
@@ -433,6 +534,24 @@ func genC12(r *rand.Rand, tier string) []Case {
 	var cases []Case
 	for i := 0; i < nCut; i++ {
 		cases = append(cases, &c12Case{Mode: "cut", Comp: i % 4, RBuf: bufs[r.Intn(len(bufs))], Recs: mkRecs(5, 20)})
+	}
+	// nil records between data records (the read/skip programs then read a nil record right after a skip)
+	for i := 0; i < 4; i++ {
+		c := &c12Case{Mode: "cut", Comp: i, RBuf: bufs[r.Intn(len(bufs))]}
+		c.Recs = []c12Rec{{Rec: advPayload(r, 20)}, {Nil: true}, {Rec: append([]byte("B"), advPayload(r, 20)...)}, {Rec: append([]byte("C"), advPayload(r, 10)...)}, {Nil: true}, {Rec: []byte("D")}}
+		if i%2 == 1 {
+			c.Recs = append([]c12Rec{{Nil: true}}, c.Recs...)
+		}
+		cases = append(cases, c)
+	}
+	// records beyond the size classes of the readers' buffer pools (512 KiB, 1 MiB), cut inside their payloads
+	for i := 0; i < 2; i++ {
+		c := &c12Case{Mode: "cut", Comp: 0, RBuf: []int{4096, 64}[i], Big: true}
+		c.Recs = []c12Rec{{Rec: []byte("first")}, {GenN: 512<<10 + 1 + r.Intn(100000), GenSeed: int64(i + 1)}, {Nil: true}, {Rec: advPayload(r, 30)}}
+		if i == 1 {
+			c.Recs = append(c.Recs, c12Rec{GenN: 1<<20 + 1 + r.Intn(1000), GenSeed: 77}, c12Rec{Rec: []byte("last")})
+		}
+		cases = append(cases, c)
 	}
 	for i := 0; i < nHdr; i++ {
 		c := &c12Case{Mode: "hdr", Comp: i % 4, RBuf: bufs[r.Intn(len(bufs))], Recs: mkRecs(3, 12)}
